@@ -269,7 +269,7 @@ func TestVerifC02(t *testing.T) {
 		}
 	}
 
-	run.Cases(run.N(1500, 200000), func(c *vlib.Case) {
+	run.Cases(run.N(6000, 200000), func(c *vlib.Case) {
 		r := c.R.Fork(0xC02)
 		mf := 300
 		if r.Intn(8) == 0 {
